@@ -102,9 +102,9 @@ def audit(module):
             fh.write(f"#print axioms {n}\n")
     rc, out = _run(["lake", "env", "lean", f])
     per, failures = {}, []
-    for m in re.finditer(r"'([^']+)' depends on axioms: \[([^\]]*)\]", out.replace("\n", " ")):
+    for m in re.finditer(r"'(\S+?)' depends on axioms: \[([^\]]*)\]", out.replace("\n", " ")):
         per[m.group(1)] = [a.strip() for a in m.group(2).split(",") if a.strip()]
-    for m in re.finditer(r"'([^']+)' does not depend on any axioms", out):
+    for m in re.finditer(r"'(\S+?)' does not depend on any axioms", out):
         per[m.group(1)] = []
     for n in names:
         if n not in per:
